@@ -40,6 +40,12 @@ def make_case(prop, rng, tier, kind=None):
     cstyle = rng.choice(["immediate", "delayed", "mixed", "mixed", "longstall", "shortstall"])
     if prop == "C12" and rng.random() < 0.35:
         cstyle = "immediate"
+    jug = None
+    if rng.random() < (0.4 if prop in ("C06", "C02") else 0.15):
+        # a consumer that juggles up to two retrieval reservations: takes them in either order, withdraws the older or the younger one,
+        # waits in between (cancel paths of the belt stores; the kinematic oracles skip runs in which a retrieval is held over time)
+        cstyle = "juggler"
+        jug = [rng.choice(["rg", "rg", "rg", "get0", "get1", "get0", "c0", "c1", "wait", "wait"]) for _ in range(6 * n + 8)]
     if cstyle == "immediate":
         stalls = [0] * n
     elif cstyle == "delayed":
@@ -68,7 +74,7 @@ def make_case(prop, rng, tier, kind=None):
     # a late start: the same scenario far from t=0 (absolute-clock arithmetic: tolerances relative to `now`, rounding of large times)
     t0 = rng.choice([0] * 8 + [65536, 1048576])
     case = {"layer": "A", "kind": kind, "cfg": cfg, "nclients": 3, "ops": [], "final_adv": 0,
-            "meta": {"prop": prop, "lattice": lat_name, "scenario": {"gaps": gaps, "gaps2": gaps2, "producers": producers, "stalls": stalls, "n": n, "holds": holds, "t0": t0,
+            "meta": {"prop": prop, "lattice": lat_name, "scenario": {"gaps": gaps, "gaps2": gaps2, "producers": producers, "stalls": stalls, "n": n, "holds": holds, "t0": t0, "jug": jug,
                                                                    "style": style, "cstyle": cstyle}}}
     return case, GenBelt(case["meta"]["scenario"], slot, cap)
 
@@ -91,10 +97,33 @@ class GenBelt:
         self.slot, self.cap = slot, cap
         self.plans = {}
         self.nplans = 0
+        self.jk = 0
+        self.jug_tick = None
 
     def name(self, p):
         self.k += 1
         return f"{p}{self.k}"
+
+    def juggle(self, h, now, gg, pg, jug):
+        """One consumer action of the juggling style, or None (let producers act / time pass)."""
+        if self.jug_tick is not None and now < self.jug_tick:
+            return None
+        gg = sorted(gg, key=lambda t: t.granted_seq)
+        for _ in range(4):
+            code = jug[self.jk % len(jug)]
+            self.jk += 1
+            if code == "wait":
+                self.jug_tick = now + self.slot / 2
+                return None
+            if code == "rg" and len(gg) + len(pg) < 2 and self.consumed + len(gg) + len(pg) < self.n:
+                return ["rg", 1, 0, None, self.name("g")]
+            if code in ("get0", "get1") and gg:
+                self.consumed += 1
+                return ["get", 1, (gg[0] if code == "get0" else gg[-1]).name]
+            if code in ("c0", "c1") and gg:
+                return ["cg", 1, (gg[0] if code == "c0" else gg[-1]).name]
+        self.jug_tick = now + self.slot / 2
+        return None
 
     def mk_plan(self, h, now):
         hs = self.sc.get("holds") or [["now", 0, 0]]
@@ -123,7 +152,12 @@ class GenBelt:
         pp = [t for t in toks if t.kind == "p" and t.state == "pending"]
         gg = [t for t in toks if t.kind == "g" and t.state == "granted"]
         pg = [t for t in toks if t.kind == "g" and t.state == "pending"]
-        if gg:
+        jug = self.sc.get("jug")
+        if jug:
+            op = self.juggle(h, now, gg, pg, jug)
+            if op is not None:
+                return op
+        elif gg:
             self.consumed += 1
             self.take_at = None
             return ["get", 1, gg[0].name]
@@ -150,7 +184,7 @@ class GenBelt:
         if self.consumed >= self.n:
             return None
         # consumer
-        if not pg and self.consumed + 0 < self.n:
+        if not jug and not pg and self.consumed + 0 < self.n:
             stall = self.sc["stalls"][min(self.consumed, self.n - 1)]
             ready = bool(h.bind.order)
             if stall == 0:
@@ -177,6 +211,8 @@ class GenBelt:
             cands.append(self.next_put2)
         if self.take_at is not None and self.take_at > now:
             cands.append(self.take_at)
+        if self.jug_tick is not None and self.jug_tick > now:
+            cands.append(self.jug_tick)
         held = [pl for t in gp for pl in [self.plans.get(t.name)] if pl is not None and pl["at"] > now]
         cands += [pl["at"] for pl in held]
         tgt = min(cands)
